@@ -2,7 +2,8 @@
      antismash/common/secmet/locations.py : convert_protein_position_to_dna
      antismash/common/secmet/features/feature.py : Feature.get_sub_location_from_protein_coordinates
      Feature.from_biopython / to_biopython (the codon_start adjustment; frameshift lives in Common/Loc.v)
-     antismash/common/secmet/features/prepeptide.py : Prepeptide.to_biopython (leader/core/tail locations)
+     antismash/common/secmet/features/prepeptide.py : Prepeptide.to_biopython (leader/core/tail locations; as repaired,
+       and as it was before for the refutation)
      antismash/modules/tta/tta.py : TTAResults.new_feature_from_other
      antismash/common/secmet/features/cds_feature.py : CDSFeature.from_biopython (the flow of the location
        through the frameshift, the generated translation, the constructor and Feature.from_biopython),
@@ -249,12 +250,40 @@ Definition load_path_record (tbl : list Z) (sq : Z -> Z) (n : Z) (l : loc) (cs s
   end.
 
 (* ---------- Prepeptide.to_biopython: leader / core / tail locations ---------- *)
-Definition prepeptide_locs (l : loc) (ll tl : Z) : res (list loc) :=
+(* The prepeptide holds three strings (leader, core, tail) and a location; only their LENGTHS matter here.
+   [slack] = number of codons of the location beyond leader + core + tail:
+     slack = len(location) // 3 - len(leader) - len(core) - len(tail),
+   so that len(core) = total - ll - tl - slack.  The RiPP modules hand over the gene's location, which as a rule
+   ends with the stop codon, and sections that make up the gene's translation: slack = 1.
+
+   The code as REPAIRED (finding prepeptide_tail_boundary_shifted_by_stop_codon): boundaries are counted from the
+   start,
+     core_start = len(leader);  core_end = core_start + len(core) if tail else total_length
+     leader = get_sub(0, core_start) if leader;  core = get_sub(core_start, core_end);
+     tail = get_sub(core_end, total_length) if tail
+   - the last section keeps whatever the location holds beyond the sections. *)
+Definition prepeptide_locs_s (l : loc) (ll tl slack : Z) : res (list loc) :=
+  let total := llen l / 3 in
+  let core_len := total - ll - tl - slack in
+  let core_start := ll in
+  let core_end := if 0 <? tl then core_start + core_len else total in
+  do leader <- (if 0 <? ll then do x <- get_sub l false false 0 core_start; Ok [x] else Ok []);
+  do core <- get_sub l false false core_start core_end;
+  do tail <- (if 0 <? tl then do x <- get_sub l false false core_end total; Ok [x] else Ok []);
+  Ok (leader ++ [core] ++ tail).
+
+(* the code BEFORE the repair (kept for the refutation): the tail was counted back from the end of the location and
+   len(core) was never looked at, so [slack] plays no part:
+     core = get_sub(len(leader), total_length - len(tail));  tail = get_sub(total_length - len(tail), total_length) *)
+Definition prepeptide_locs_old_s (l : loc) (ll tl slack : Z) : res (list loc) :=
   let total := llen l / 3 in
   do leader <- (if 0 <? ll then do x <- get_sub l false false 0 ll; Ok [x] else Ok []);
   do core <- get_sub l false false ll (total - tl);
   do tail <- (if 0 <? tl then do x <- get_sub l false false (total - tl) total; Ok [x] else Ok []);
   Ok (leader ++ [core] ++ tail).
+
+(* sections that fill the location's codons exactly (slack = 0: what the checks drew before the finding) *)
+Definition prepeptide_locs (l : loc) (ll tl : Z) : res (list loc) := prepeptide_locs_s l ll tl 0.
 
 (* ---------- locations.build_location_from_others ---------- *)
 (* one round of the loop: "if loc.start == location.end" the last part of the location built so far
@@ -286,17 +315,20 @@ Definition build_from_others (locs : list loc) : res loc :=
    location_from_string are inverse to each other on such locations: C04); from_biopython hands
    [leader, core, tail] (those that exist) to build_location_from_others and the constructor
    (Feature.__init__) checks the result *)
-Definition prepeptide_reread (l : loc) (ll tl : Z) : res loc :=
-  do locs <- prepeptide_locs l ll tl;
+Definition prepeptide_reread_s (l : loc) (ll tl slack : Z) : res loc :=
+  do locs <- prepeptide_locs_s l ll tl slack;
   do g <- build_from_others locs;
   do _ <- feature_init g;
   Ok g.
-(* the re-read location, and leader/core/tail computed again from it *)
-Definition prepeptide_roundtrip (l : loc) (ll tl : Z) : list Z :=
-  match prepeptide_reread l ll tl with
+(* the re-read location, and leader/core/tail computed again from it: the re-read prepeptide holds the same three
+   strings, so its slack is counted from ITS location (len(core) = llen l / 3 - ll - tl - slack as before) *)
+Definition prepeptide_roundtrip_s (l : loc) (ll tl slack : Z) : list Z :=
+  match prepeptide_reread_s l ll tl slack with
   | Err k => [1; k]
-  | Ok g => 0 :: eLoc g ++ eRes (eList eLoc) (prepeptide_locs g ll tl)
+  | Ok g => 0 :: eLoc g ++ eRes (eList eLoc) (prepeptide_locs_s g ll tl (llen g / 3 - (llen l / 3 - slack)))
   end.
+Definition prepeptide_reread (l : loc) (ll tl : Z) : res loc := prepeptide_reread_s l ll tl 0.
+Definition prepeptide_roundtrip (l : loc) (ll tl : Z) : list Z := prepeptide_roundtrip_s l ll tl 0.
 
 (* ---------- TTAResults.new_feature_from_other ---------- *)
 (* a location of several parts: the offset (an index into the spliced sequence) is mapped through
@@ -401,6 +433,39 @@ Definition spec_prepeptide (g : loc) (ll tl : Z) (out : res (list loc)) : bool :
     end
   end.
 
+(* ----- sections of a prepeptide whose location holds [slack] codons beyond leader + core + tail -----
+   [spec_sections g ranges locs]: one location per residue range, each satisfying spec_sub for its range (inside the
+   gene, three bases per residue, reading exactly that stretch of the gene's reading order) *)
+Fixpoint spec_sections (g : loc) (ranges : list (Z * Z)) (locs : list loc) : bool :=
+  match ranges, locs with
+  | [], [] => true
+  | (s, e) :: rr, l :: lr => spec_sub g s e l && spec_sections g rr lr
+  | _, _ => false
+  end.
+(* leader = residues [0,ll) if any, core = [ll,ce), tail = [ce,te) if any *)
+Definition section_ranges (ll tl ce te : Z) : list (Z * Z) :=
+  (if 0 <? ll then [(0, ll)] else []) ++ [(ll, ce)] ++ (if 0 <? tl then [(ce, te)] else []).
+(* what the property states: EVERY section covers exactly its residues - the core ends at ll + len(core)
+   = total - tl - slack, the tail has tl residues *)
+Definition strict_ranges (total ll tl slack : Z) : list (Z * Z) :=
+  let ce := total - tl - slack in section_ranges ll tl ce (ce + tl).
+(* the same, but the LAST section (the tail if there is one, else the core) runs on to the end of the location: it
+   also holds the 3*slack trailing bases (the stop codon) *)
+Definition extended_ranges (total ll tl slack : Z) : list (Z * Z) :=
+  let ce := if 0 <? tl then total - tl - slack else total in section_ranges ll tl ce total.
+Definition spec_prepeptide_s (g : loc) (ll tl slack : Z) (out : res (list loc)) : bool :=
+  match out with
+  | Err _ => false
+  | Ok locs => spec_sections g (strict_ranges (llen g / 3) ll tl slack) locs
+  end.
+(* relaxed: the last section MAY hold the trailing bases (either form is accepted) *)
+Definition spec_prepeptide_relaxed_s (g : loc) (ll tl slack : Z) (out : res (list loc)) : bool :=
+  spec_prepeptide_s g ll tl slack out ||
+  match out with
+  | Err _ => false
+  | Ok locs => spec_sections g (extended_ranges (llen g / 3) ll tl slack) locs
+  end.
+
 (* the prepeptide location g' after to_biopython -> from_biopython, judged against the gene g it was
    made from: [ g' reads exactly the first 3*total coordinates of g's reading order (so every base
    of g' is a base of g; exons that adjoin without an intron may come back merged, hence no
@@ -411,6 +476,17 @@ Definition spec_reread (g : loc) (ll tl : Z) (g' : loc) (again : res (list loc))
   let total := llen g / 3 in
   eBool (zlist_eqb (idx g') (sublist 0 (3 * total) (idx g)) && (llen g' =? 3 * total))
   ++ eBool (spec_prepeptide g' ll tl again)
+  ++ eBool (loc_eqb g' g).
+
+(* the same with slack: [ g' reads the first 3*total coordinates of g; sections computed again: strict specification
+   w.r.t. g'; relaxed specification w.r.t. g'; g' is part for part the gene's location ] - the slack of the re-read
+   prepeptide is counted from g' as in prepeptide_roundtrip_s *)
+Definition spec_reread_s (g : loc) (ll tl slack : Z) (g' : loc) (again : res (list loc)) : list Z :=
+  let total := llen g / 3 in
+  let slack' := llen g' / 3 - (total - slack) in
+  eBool (zlist_eqb (idx g') (sublist 0 (3 * total) (idx g)) && (llen g' =? 3 * total))
+  ++ eBool (spec_prepeptide_s g' ll tl slack' again)
+  ++ eBool (spec_prepeptide_relaxed_s g' ll tl slack' again)
   ++ eBool (loc_eqb g' g).
 
 (* the marker of the codon at offset i of the gene's reading order: three bases, every one of them a
@@ -541,6 +617,15 @@ Definition run_C09 (fn : Z) (l : list Z) : list Z :=
          | Some ((a, (ll, tl)), []) =>
            if nonempty_loc a then prepeptide_roundtrip a ll tl else bad_input
          | _ => bad_input end
+  (* 24 / 29: fn 4 / fn 9 for a prepeptide whose location holds [slack] codons beyond its sections *)
+  | 24 => match dPair dLoc (dPair (dPair dZ dZ) dZ) l with
+          | Some ((a, ((ll, tl), slack)), []) =>
+            if nonempty_loc a then eRes (eList eLoc) (prepeptide_locs_s a ll tl slack) else bad_input
+          | _ => bad_input end
+  | 29 => match dPair dLoc (dPair (dPair dZ dZ) dZ) l with
+          | Some ((a, ((ll, tl), slack)), []) =>
+            if nonempty_loc a then prepeptide_roundtrip_s a ll tl slack else bad_input
+          | _ => bad_input end
   (* 20: build_location_from_others *)
   | 20 => match dList dLoc l with
           | Some (locs, []) =>
@@ -561,6 +646,20 @@ Definition run_C09 (fn : Z) (l : list Z) : list Z :=
           | Some ((a, ((ll, tl), out)), []) =>
             match out with
             | Ok (g', again) => 0 :: spec_reread a ll tl g' again ++ [gene_class a]
+            | Err k => [1; k; gene_class a]
+            end
+          | _ => bad_input end
+  (* 34: [strict specification; relaxed specification; gene class] on the sections of fn 24;
+     39: the verdict on the round trip of fn 29 *)
+  | 34 => match dPair dLoc (dPair (dPair (dPair dZ dZ) dZ) dResLocs) l with
+          | Some ((a, (((ll, tl), slack), out)), []) =>
+            eBool (spec_prepeptide_s a ll tl slack out) ++ eBool (spec_prepeptide_relaxed_s a ll tl slack out)
+            ++ [gene_class a]
+          | _ => bad_input end
+  | 39 => match dPair dLoc (dPair (dPair (dPair dZ dZ) dZ) dReread) l with
+          | Some ((a, (((ll, tl), slack), out)), []) =>
+            match out with
+            | Ok (g', again) => 0 :: spec_reread_s a ll tl slack g' again ++ [gene_class a]
             | Err k => [1; k; gene_class a]
             end
           | _ => bad_input end
